@@ -303,7 +303,7 @@ def run(tier):
     chk.coverage = {
         'evaluations': len(models),
         'distinct_nontrivial': len(nontrivial),
-        'rule': 'every statement list of length <= %d over the 15-statement alphabet (three one-level functions prepended when one is called), plus random models of '
+        'rule': '+ round 7: names of expression built-ins (len, abs, max ...) called in jump conditions / return values / expression statements are undefined functions; every statement list of length <= %d over the 15-statement alphabet (three one-level functions prepended when one is called), plus random models of '
                 '5-40 statements with up to 3 functions; non-trivial = contains at least one jump and one label, distinct by statement list'
                 % maxlen,
         'exhaustive': True,
